@@ -89,53 +89,20 @@ LEVEL_NOTE = "trusts vf.gen.frames.meta_violation and pandas dtype reporting; Ar
 TECHNIQUE = "runtime monitoring: cross-cutting meta monitor (lazy ._meta vs computed result and each computed partition)"
 CASE_TIMEOUT = 90
 
+# labels listed as known findings in /verif/known_findings.d/C42.json (everything else was fixed, see /verif/fixes_ready)
 PENDING = {
-    'merge:meta-dtype(value-dependent)':
-        "G1 meta = what pandas infers without data; computed dtype is pandas' value-dependent upcast (NaN / float replacement / unmatched merge rows)",
-    'c36-elementwise:meta-dtype(value-dependent)':
-        "G1 meta = what pandas infers without data; computed dtype is pandas' value-dependent upcast (NaN / float replacement / unmatched merge rows)",
-    'c36:assign:meta-dtype(float64->int64)':
-        'G2 .str.len() (and other int-valued .str methods): meta float64 because meta_nonempty(str) holds a NaN; computed int64',
-    'c36-elementwise:meta-dtype(value-dependent)@partition':
-        "G1 meta = what pandas infers without data; computed dtype is pandas' value-dependent upcast (NaN / float replacement / unmatched merge rows)",
-    'window:cumsum:int:frame:meta-dtype(int64->float64)':
-        'G3 cumsum/cumprod of an int64 column computes float64 (meta int64) - the C46 finding seen through the meta monitor',
-    'c36:filter:meta-kind':
-        'G4 = C36 F5: Filter with an AsType predicate computes the mask (meta says the filtered frame/series)',
-    'c36:apply:axis1:meta-dtype(bool->float64)':
-        'G5 = C36 F11: apply(axis=1, meta=) on an empty partition yields a float64/empty-frame piece, result dtype differs from the given meta',
-    'c36:series:str[str.len]:meta-dtype(float64->int64)':
-        'G2 .str.len() (and other int-valued .str methods): meta float64 because meta_nonempty(str) holds a NaN; computed int64',
-    'window:cumprod:int:frame:meta-dtype(int64->float64)':
-        'G3 cumsum/cumprod of an int64 column computes float64 (meta int64) - the C46 finding seen through the meta monitor',
-    'c36:filter:series:meta-dtype(Int64->bool)':
-        'G4 = C36 F5: Filter with an AsType predicate computes the mask (meta says the filtered frame/series)',
-    'c36:other:assign:meta-dtype(int64->float64)':
-        'G6 = C36 F8: AssignAlign outer alignment adds NaN rows: existing columns upcast, meta does not say so',
-    'c36:project:meta-columns':
-        "G7 = C36 F3: projection of an aligned binary op keeps the other operand's columns; meta has the projected columns only",
-    'c36:apply:axis1:meta-dtype(str->float64)':
-        'G5 = C36 F11: apply(axis=1, meta=) on an empty partition yields a float64/empty-frame piece, result dtype differs from the given meta',
-    'c36:project:meta-dtype(boolean->bool)':
-        'G4 = C36 F5: Filter with an AsType predicate computes the mask (meta says the filtered frame/series)',
-    'c36:assign:meta-columns':
-        "G8 = C36 F9: squashed Assign nodes change the column order; meta keeps pandas' order",
-    'c36:filter:earlier-state-mask:meta-kind':
-        'G4 = C36 F5: Filter with an AsType predicate computes the mask (meta says the filtered frame/series)',
-    'c36:other:assign:meta-dtype(bool->str)':
-        'G6 = C36 F8: AssignAlign outer alignment adds NaN rows: existing columns upcast, meta does not say so',
-    'c36:project:meta-columns@partition':
-        "G7 = C36 F3: projection of an aligned binary op keeps the other operand's columns; meta has the projected columns only",
-    'c36:project:meta-kind':
-        'G4 = C36 F5: Filter with an AsType predicate computes the mask (meta says the filtered frame/series)',
-    'window:cumsum:int:frame:meta-dtype(int64->float64)@partition':
-        'G3 cumsum/cumprod of an int64 column computes float64 (meta int64) - the C46 finding seen through the meta monitor',
-    'c36:filter:series:meta-dtype(bool->float64)':
-        'G5 = C36 F11: apply(axis=1, meta=) on empty partitions yields float64 pieces; the (filtered) result no longer has the given dtype',
-    'c36:other:mask:meta-columns':
-        "G7 = C36 F3: projection of an aligned binary op keeps the other operand's columns; meta has the projected columns only",
     'c36:str:split-expand:meta-columns':
-        'G9 str.split(n=, expand=True) on a result without rows computes a frame with 0 columns (pandas does too); the meta promises n+1 columns',
+        'str.split(n=, expand=True) on a result without rows computes 0 columns; the meta promises n+1',
+    'value-dependent-dtype:meta-is-what-pandas-infers-without-data':
+        'computed dtype (whole result or a single partition) differs from ._meta for operations whose pandas result dtype depends on the values: outer/left/rig',
+    'c36:str.len:meta-dtype(float64->int64)':
+        'ddf.b.str.len() has meta float64, computes int64 (pandas int64 on the data and on the empty column)',
+    'window:cumulative-int:meta-dtype(int64->float64)':
+        'cumsum/cumprod/cummax/cummin of an int64 column compute float64, meta says int64 (pandas keeps int64)',
+    'c36:apply:axis1:empty-partition:meta-dtype':
+        'DataFrame.apply(axis=1, meta=) on an empty partition yields a float64 piece; the partition / concatenated result no longer has the given bool/str/int ',
+    'c36:other:assign:meta-dtype':
+        'assign of a differently partitioned series adds all-NaN rows, upcasting existing columns; the meta does not say so',
 }
 
 OPS_CLASSES = ("reduction", "groupby-agg", "merge", "concat", "shuffle", "window", "repartition", "index", "astype")
@@ -296,6 +263,37 @@ def check(res, val, parts, empty_ref=None, full_ref=None):
     return None
 
 
+VALUE_DEPENDENT = "value-dependent-dtype:meta-is-what-pandas-infers-without-data"
+
+
+def mechanism_label(case, desc, klass, facet, prefix):
+    """<class>:<form>:<facet>, except for mechanisms recognised by an explicit predicate (one mechanism = one label):
+    * VALUE_DEPENDENT - facet_of verified that pandas on empty input gives the meta's dtype and pandas on the data the
+      computed one (whole result or a single partition, any operation class);
+    * ``c36:apply:axis1:empty-partition:meta-dtype`` - the program contains DataFrame.apply(axis=1, meta=) and a
+      float64 piece shows up where the meta says bool/str/int (pandas' result of apply on zero rows);
+    * ``c36:other:assign:meta-dtype`` - assign of a differently partitioned series (outer alignment adds NaN rows);
+    * ``c36:str.len:meta-dtype(float64->int64)`` - int-valued .str method: meta float64 from the NaN in the fake data;
+    * ``window:cumulative-int:meta-dtype(int64->float64)`` - cumsum/cumprod/... of an int column computes float64."""
+    import json
+
+    if facet.startswith("meta-dtype(value-dependent)"):
+        return VALUE_DEPENDENT
+    dt = facet.startswith("meta-dtype(")
+    if case["src"] == "c36":
+        steps = prefix or desc["steps"]
+        text = json.dumps(steps)
+        if dt and "->float64)" in facet and any(st["op"] == "apply_rows" for st in steps):
+            return "c36:apply:axis1:empty-partition:meta-dtype"
+        if dt and klass.startswith("c36:other:assign"):
+            return "c36:other:assign:meta-dtype"
+        if facet.startswith("meta-dtype(float64->int64)") and '["str", "len"' in json.dumps(steps[-1]):
+            return "c36:str.len:meta-dtype(float64->int64)"
+    elif desc["class"] == "window" and desc.get("op") == "cum" and facet.startswith("meta-dtype(int64->float64)"):
+        return "window:cumulative-int:meta-dtype(int64->float64)"
+    return "%s:%s" % (klass, facet)
+
+
 def run_case(case, ctx):
     import pandas as pd
 
@@ -402,7 +400,4 @@ def run_case(case, ctx):
         head = c36.expr_heads(desc["steps"][k - 1]) if fam.split(":")[0] in ("series", "filter", "assign") else None
         klass = "c36:%s%s" % (fam, "[%s]" % head if head and fam.split(":")[0] == "series" else "")
         detail["shortest_prefix"] = desc["steps"][:k]
-    if facet.startswith("meta-dtype(value-dependent)"):
-        # one mechanism (meta inferred from fake data cannot know whether missing values will appear): per top-level class
-        klass = "c36-elementwise" if case["src"] == "c36" else desc["class"]
-    ctx.violation("%s:%s" % (klass, facet), msg, **detail)
+    ctx.violation(mechanism_label(case, desc, klass, facet, detail.get("shortest_prefix")), msg, **detail)
